@@ -9,6 +9,8 @@ import (
 	"sync"
 	"sync/atomic"
 
+	"github.com/cbeuw/Cloak/internal/verifhook"
+
 	log "github.com/sirupsen/logrus"
 )
 
@@ -98,6 +100,7 @@ func (s *Stream) Read(buf []byte) (n int, err error) {
 
 func (s *Stream) obfuscateAndSend(buf []byte, payloadOffsetInBuf int) error {
 	cipherTextLen, err := s.session.obfuscate(&s.writingFrame, buf, payloadOffsetInBuf)
+	verifhook.At("stream.send.encoded", uint64(s.id), s.writingFrame.Seq)
 	s.writingFrame.Seq++
 	if err != nil {
 		return err
